@@ -53,6 +53,20 @@ CHECKS = {
             'they are labelled with and one real periodic-loop pass is checked on the wire.',
             'Single subscriber; content comparison goes through the library reader (versions, handles, grouping through lxml only); '
             'ordering under concurrent writers is covered by the schedule-exploration part when present in the evidence.', '3/C04'),
+    'C05': ('I', 'bounded-exhaustive enumeration of instances of every declared data-type / message / container class against the bundled XSD (independent libxml2 validator), canonical round-trip equality, write idempotence and object-identity rules',
+            '236 classes found by reflection (participant model, message model, WS-Addressing / Eventing / Discovery / DPWS / MEX, SOAP fault, '
+            'all state and descriptor containers; 174 validated as their named XSD type through a harness-generated wrapper schema or as global '
+            'element, the rest inside their owners). Per class: the base instance (members that the library or the XSD requires), every single '
+            'member deviation over the member domain (absent where the XSD allows it, every enum member up to 6, every xsi:type substitution whose '
+            'XSD type derives from the declared one, lists of length 1/2/all-substitutions, XML-special and non-ASCII strings, boundary numbers '
+            'chosen inside the XSD simple type: signedness, dateTime, language, anyURI, TimeZone pattern, required attributes, choices), nested '
+            'values populated to depth 2, two fully populated variants; thorough: every pair of members x 2 values. On every instance: '
+            'schema-valid; parse(write(x)) canonically equal to x (an absent member with documented default reads as that default); write(x) twice '
+            'identical and the first output untouched; write(parse(write(x))) identical and the parsed-from document untouched; two parses share no '
+            'mutable member with each other or with class defaults; explicitly written implied value parses equal to absent.',
+            'Values outside the XSD value space are not generated (the property quantifies over the schema value space); depth-3 nesting and triples '
+            'are not enumerated; msg_types.GetMdibResponse is round-trip only (raw element tree member). A small XSD structure model (mcx/xsdmodel.py) '
+            'is used only to keep inputs inside the schema space, validity is always decided by libxml2.', '3/C05'),
     'C06': ('H+S', 'exhaustive enumeration of delivery sequences (each report 0, 1 or 2 times, any order) on the real consumer endpoint; id-change/reload histories; preemption-bounded schedule exploration of initial load / reload against deferred report delivery',
             '(a) For 10 (thorough 16) provider histories the notifications are captured on the wire and every delivery sequence in which '
             'each of the first 4 (thorough 5) messages occurs 0, 1 or 2 times in any order, of length <= n+1 (plus every single drop, '
